@@ -44,6 +44,10 @@ func (c *Conn) SendCall(ctx context.Context, request *UpstreamCall) (callID stri
 
 // ReceiveCallは、E2Eコールを受信します。
 func (c *Conn) ReceiveCall(ctx context.Context) (*DownstreamCall, error) {
+	if c.isClosed() {
+		// closed wins over calls that are still queued (the select below picks among ready cases at random)
+		return nil, errors.ErrConnectionClosed
+	}
 	ctx, cancel := c.state.WithCloseStatus(ctx)
 	defer cancel()
 	select {
@@ -65,6 +69,9 @@ func (c *Conn) ReceiveCall(ctx context.Context) (*DownstreamCall, error) {
 
 // ReceiveReplyCallは、E2Eリプライコールを受信します。
 func (c *Conn) ReceiveReplyCall(ctx context.Context) (*DownstreamReplyCall, error) {
+	if c.isClosed() {
+		return nil, errors.ErrConnectionClosed
+	}
 	ctx, cancel := c.state.WithCloseStatus(ctx)
 	defer cancel()
 	select {
